@@ -323,9 +323,9 @@ func init() {
 		},
 		Sections: func(tier core.Tier, seed int64) []core.Section {
 			A := len(cfAlphabet)
-			maxLen, nRandom, nConv := 2, 20000, 8000
+			maxLen, nRandom, nConv := 3, 20000, 8000
 			if tier == core.Thorough {
-				maxLen, nRandom, nConv = 3, 1500000, 400000
+				maxLen, nRandom, nConv = 3, 2000000, 500000
 			}
 			var secs []core.Section
 			for L := 1; L <= maxLen; L++ {
